@@ -700,6 +700,16 @@ fn process_items(file: &str, items: Vec<Item>, cfg: &Cfg, rw: &mut Rewriter, out
                             PathArguments::AngleBracketed(ab) => ab.args.to_token_stream().to_string().replace(' ', ""),
                             _ => die("From without type argument"),
                         };
+                        // the trait impl itself stays in the file, outside verification, so that callers written
+                        // as `usize::from(id)` / `id.into()` still resolve (Verus then reports them as unsupported)
+                        let mut ext = im.clone();
+                        ext.attrs = vec![parse_quote!(#[verifier::external])];
+                        for ii in ext.items.iter_mut() {
+                            if let ImplItem::Fn(f) = ii {
+                                f.attrs.clear();
+                            }
+                        }
+                        out.items.push(Item::Impl(ext));
                         for ii in im.items.drain(..) {
                             if let ImplItem::Fn(f) = ii {
                                 let orig = f.to_token_stream();
